@@ -36,6 +36,18 @@ BETA = 0.4
 
 def make_seg(kind, p, heading, L):
     """returns (segment, heading at its end)"""
+    if kind == 'D':
+        # derivative vanishes at t = 1 (control2 == end); the curve arrives along end - control1
+        c1 = p + (L / 2.0) * heading
+        e = p + L * heading * cmath.exp(-1j * BETA)
+        h_out = (e - c1) / abs(e - c1)
+        return CubicBezier(p, c1, e, e), h_out
+    if kind == 'E':
+        # derivative vanishes at t = 0 (control1 == start); leaves along control2 - start
+        h_out = heading * cmath.exp(-1j * BETA)
+        c2 = p + (L / 2.0) * heading
+        e = c2 + (L / 2.0) * h_out
+        return CubicBezier(p, p, c2, e), h_out
     if kind == 'L':
         e = p + L * heading
         return Line(p, e), heading
@@ -56,6 +68,15 @@ def turtle(kinds, angles, lengths, start=1.5 - 0.5j, heading0=cmath.exp(0.3j)):
         segs.append(s)
         p = s.end
     return segs
+
+
+def closed_shape_smooth_closing(kinds, size):
+    """like closed_shape, but the path starts in the middle of its first (straight) side, so the
+    closing joint is already smooth"""
+    segs = closed_shape('L' + kinds[1:], size)
+    first = segs[0]
+    m = first.point(0.4)
+    return [Line(m, first.end)] + segs[1:] + [Line(first.start, m)]
 
 
 def closed_shape(kinds, size):
@@ -122,7 +143,7 @@ def check(segs, closed, mjs, tight, case, acc):
             return
         if ang > 1e-6:
             in_kinks.append(j)
-    kinds = ''.join('L' if isinstance(s, Line) else 'C' for s in segs)
+    kinds = ''.join('L' if isinstance(s, Line) else ('C' if s.control1 != s.start and s.control2 != s.end else 'D') for s in segs)
     acc.case(case, cls='%s/%s/%s' % ('closed' if closed else 'open', 'n%d' % n, 'kinks%d' % min(len(in_kinks), 3)),
              nontrivial=bool(in_kinks))
     with warnings.catch_warnings():
@@ -211,6 +232,20 @@ def gen_cases(tier):
             for size in (0.5, 5.0, 80.0):
                 for pr in PARAMS:
                     yield ('closed', ''.join(kinds), [], [size], pr)
+    for n in (3, 4):
+        for kinds in itertools.product('LC', repeat=n):
+            if kinds[0] != 'L':
+                continue
+            for size in (0.5, 5.0, 80.0):
+                for pr in (PARAMS[2], PARAMS[3]):
+                    yield ('closed_smooth_closing', ''.join(kinds), [], [size], pr)
+    # cubics whose end derivative vanishes (coincident end control points), followed / preceded by
+    # smoothly continuing or turning segments
+    for kinds in (('D', 'L'), ('D', 'C'), ('L', 'E'), ('C', 'E'), ('D', 'E'), ('L', 'D', 'L'), ('C', 'E', 'L')):
+        for a in itertools.product([0, 45, -90, 135], repeat=len(kinds) - 1):
+            for L_ in (3.0, 60.0):
+                for pr in (PARAMS[2], PARAMS[3]):
+                    yield ('open', ''.join(kinds), list(a), [L_] * len(kinds), pr)
     for kind in 'LC':
         yield ('single', kind, [], [3.0], PARAMS[3])
 
@@ -229,6 +264,9 @@ def run_case(c, acc):
     if mode == 'open':
         segs = turtle(kinds, angles, ls)
         check(segs, False, pr[0], pr[1], case, acc)
+    elif mode == 'closed_smooth_closing':
+        segs = closed_shape_smooth_closing(kinds, ls[0])
+        check(segs, True, pr[0], pr[1], case, acc)
     else:
         segs = closed_shape(kinds, ls[0])
         check(segs, True, pr[0], pr[1], case, acc)
